@@ -229,6 +229,16 @@ def _do_elem(ps, n):
             if v_.kind == "unknown":
                 v_ = AVal("sym", v=len(ps.events), node=n.child(1))
             ps.env[name] = v_
+        elif op in ("+=", "-=") and C.const_of(n.child(1)) is not None:
+            # x += k: the same as k increments
+            k = C.const_of(n.child(1)) * (1 if op == "+=" else -1)
+            cur = ps.env.get(name)
+            if cur is not None and cur.kind == "const" and cur.v is not None:
+                ps.env[name] = AVal("const", cur.v + k)
+            elif cur is not None and cur.kind == "ge" and k > 0:
+                ps.env[name] = AVal("ge", cur.v + k)
+            else:
+                ps.env[name] = UNKNOWN
         elif op == "&=":
             cur = ps.env.get(name, UNKNOWN)
             r = _eval(ps, n.child(1))
